@@ -21,9 +21,12 @@ import (
 type tcfg struct {
 	Sliding bool `json:"sliding"`
 	VStore  bool `json:"vstore"` // injected storage instead of the built-in memory store
-	Max     int  `json:"max"`
-	Dyn     bool `json:"maxfunc"` // MaxFunc installed: reads X-Max, falls back to Max
-	E       int  `json:"expiration_s"`
+	// RefStore (with VStore): the injected storage keeps the value slices it is given instead of
+	// copying them (refstore.go)
+	RefStore bool `json:"storage_keeps_value_slices,omitempty"`
+	Max      int  `json:"max"`
+	Dyn      bool `json:"maxfunc"` // MaxFunc installed: reads X-Max, falls back to Max
+	E        int  `json:"expiration_s"`
 	// ExpNs, when set, is the configured Expiration in nanoseconds (subsecond-expiration family:
 	// values that are not whole seconds); E is then meaningless.
 	ExpNs      int64 `json:"expiration_ns,omitempty"`
@@ -57,6 +60,9 @@ func (c tcfg) String() string {
 	s := fmt.Sprintf("%s %s Max=%d E=%ds", c.algo(), c.backend(), c.Max, c.E)
 	if c.ExpNs > 0 {
 		s = fmt.Sprintf("%s %s Max=%d Expiration=%s", c.algo(), c.backend(), c.Max, time.Duration(c.ExpNs))
+	}
+	if c.VStore && c.RefStore {
+		s += " (storage keeps value slices)"
 	}
 	if c.Dyn {
 		s += " MaxFunc"
@@ -206,8 +212,12 @@ func newRig(cfg tcfg) *rig {
 		lc.LimiterMiddleware = flim.FixedWindow{}
 	}
 	if cfg.VStore {
-		rg.vs = vstore.New()
-		lc.Storage = rg.vs
+		if cfg.RefStore {
+			lc.Storage = newRefStore()
+		} else {
+			rg.vs = vstore.New()
+			lc.Storage = rg.vs
+		}
 	}
 	app := fiber.New()
 	app.Use(flim.New(lc))
